@@ -70,3 +70,19 @@ def helper_indices(env, d, cutoff):
     fn = fsteps.calculate_interferometer_helper_indices.py_func
     with cm.patched_np(env, fn):
         return fn(d=d, cutoff=cutoff)
+
+
+def loop_hafnian_def(A, diag):
+    """loop hafnian by its defining sum over perfect matchings with loops (A symmetric; diag = loop weights)"""
+    n = len(diag)
+
+    def rec(rest):
+        if not rest:
+            return 1
+        i = rest[0]
+        others = rest[1:]
+        total = diag[i] * rec(others)
+        for k, j in enumerate(others):
+            total = total + A[i, j] * rec(others[:k] + others[k + 1:])
+        return total
+    return rec(tuple(range(n)))
